@@ -1400,7 +1400,7 @@ emitdata(struct decl *d, struct init *init)
 	struct init *cur;
 	struct type *t;
 	unsigned long long offset = 0, start, end, bits = 0;
-	size_t i;
+	size_t i, w;
 	int align;
 
 	align = d->u.obj.align;
@@ -1422,10 +1422,17 @@ emitdata(struct decl *d, struct init *init)
 			initialized, these assertions may not hold.
 			(https://todo.sr.ht/~mcf/cproc/38)
 			*/
-			assert(cur->expr->kind == EXPRSTRING);
-			assert(init->expr->kind == EXPRCONST);
-			i = (init->start - cur->start) / cur->expr->type->base->size;
-			switch (cur->expr->type->base->size) {
+			if (cur->expr->kind != EXPRSTRING || init->expr->kind != EXPRCONST)
+				error(&tok.loc, "overlapping initializers are not supported");
+			w = cur->expr->type->base->size;
+			i = (init->start - cur->start) / w;
+			if (i >= cur->expr->u.string.size) {
+				/* the element lies in the zero padding after the string literal */
+				cur->expr->u.string.data = xreallocarray(cur->expr->u.string.data, i + 1, w);
+				memset((char *)cur->expr->u.string.data + cur->expr->u.string.size * w, 0, (i + 1 - cur->expr->u.string.size) * w);
+				cur->expr->u.string.size = i + 1;
+			}
+			switch (w) {
 			case 1: ((unsigned char *)cur->expr->u.string.data)[i]  = init->expr->u.constant.u; break;
 			case 2: ((uint_least16_t *)cur->expr->u.string.data)[i] = init->expr->u.constant.u; break;
 			case 4: ((uint_least32_t *)cur->expr->u.string.data)[i] = init->expr->u.constant.u; break;
